@@ -1470,6 +1470,61 @@ pub fn run(_args: &[String]) -> i32 {
 		bin_cases += t.cases;
 		total.merge(t);
 	}
+	// ---- 3b. structured edits of the clear header: a sender written into the header of an
+	// encrypted message (the header is outside the age payload and only covered by the unkeyed
+	// armor checksum). Every encrypted message × {an outsider's address, a recipient's address}.
+	let mut forged_cases = 0u64;
+	{
+		let forged: Vec<(usize, usize)> = (0..enc.len()).flat_map(|mi| vec![(mi, 0usize), (mi, 1usize)]).collect();
+		let res = par_map(&forged, nw, |_, (mi, which)| {
+			let m = &enc[*mi];
+			let mut t = Tally::default();
+			let l = match layout(&m.bin) {
+				Some(l) => l,
+				None => return t,
+			};
+			if l.payload_off != 17 {
+				return t; // header already carries optional fields: not this shape
+			}
+			let k = key_of(m.rset[0], 0, m.ridx);
+			let es = expected_sender(m);
+			let forged_addr = if *which == 0 { address_of(&derive_key(&key_universe()[key_universe().len() - 1])) } else { address_of(&k) };
+			let text = forged_addr.to_string();
+			let mut data = m.bin[0..3].to_vec();
+			let flags = u16::from_be_bytes([m.bin[3], m.bin[4]]) | 0x01;
+			data.extend_from_slice(&flags.to_be_bytes());
+			data.extend_from_slice(&((1 + text.len()) as u32).to_be_bytes());
+			data.push(text.len() as u8);
+			data.extend_from_slice(text.as_bytes());
+			data.extend_from_slice(&m.bin[9..]);
+			let (v, d) = verdict("header-edit", &data, Some(&k), &es, &cases[m.si].canon, &m.bin);
+			t.cases += 1;
+			let d_label = match (&d, &v) {
+				(Dec::Ok { .. }, None) => "Ok-identical".to_owned(),
+				(Dec::Ok { .. }, Some(_)) => "Ok-VIOLATION".to_owned(),
+				_ => d.class(),
+			};
+			*t.hist.entry(format!("bin/header.forged-sender/{}", d_label.split(" [").next().unwrap())).or_insert(0) += 1;
+			if let Some(clause) = v {
+				t.cands.push(Cand {
+					key: format!("C10/tamper-binary/header.forged-sender/{}", clause),
+					what: format!("{}; sender {} written into the clear header, decrypting with the key of {}: decoded instead of rejected ({})", m.label(&cases), if *which == 0 { "of an outsider" } else { "of the recipient" }, WALLETS[m.rset[0]], clause),
+					data,
+					dec_key: Some(k),
+					kind: "header-edit".to_owned(),
+					exp_sender: es.clone(),
+					exp_json: cases[m.si].json.clone(),
+					orig: m.bin.clone(),
+				});
+			}
+			t
+		});
+		for t in res {
+			forged_cases += t.cases;
+			bin_cases += t.cases;
+			total.merge(t);
+		}
+	}
 	let bin_s = t3.elapsed().as_secs_f64();
 
 	// ---- 4. edits of the armored text -------------------------------------------------------
